@@ -8,6 +8,8 @@ import (
 	"fmt"
 	"os"
 	"strconv"
+	"runtime"
+	"strings"
 	"sync"
 	"time"
 )
@@ -123,3 +125,269 @@ func verifEvent(kind string, a, b, c int) {}
 func verifNodeOutcome(a, b int) int     { return nondetInt() }
 func verifCtxErrSet() bool               { return false }
 func verifCtxDoneChan(c chan struct{})   {}
+
+
+
+// ---- deterministic scheduler for replaying lock-granular interleavings -----------------------------------------
+// For such replays the package's sync.Mutex / sync.RWMutex fields are rewritten (through the build overlay only) to
+// verifMutex / verifRWMutex, whose operations are the schedule points of the symbolic exploration: at each of them
+// the next "sched" decision of the counterexample says whether the running goroutine hands over the processor.
+
+type verifThread struct {
+	id      int
+	wake    chan struct{}
+	state   int // 0 ready, 1 blocked on lock, 2 done, 3 blocked in join
+	lock    *verifRWMutex
+	mode    byte
+	skip    bool
+	running bool
+}
+
+var vs struct {
+	mu       sync.Mutex
+	on       bool
+	threads  []*verifThread
+	cur      int
+	switches int
+	byG      map[string]*verifThread
+}
+
+func vgoid() string {
+	var buf [64]byte
+	n := runtime.Stack(buf[:], false)
+	f := strings.Fields(string(buf[:n]))
+	if len(f) > 1 {
+		return f[1]
+	}
+	return ""
+}
+
+func vself() *verifThread {
+	vs.mu.Lock()
+	defer vs.mu.Unlock()
+	if vs.byG == nil {
+		return nil
+	}
+	return vs.byG[vgoid()]
+}
+
+func verifInterleave(on bool) {
+	vs.mu.Lock()
+	defer vs.mu.Unlock()
+	vs.on = on
+	if on && len(vs.threads) == 0 {
+		t := &verifThread{id: 0, wake: make(chan struct{}, 1), running: true}
+		vs.threads = []*verifThread{t}
+		vs.byG = map[string]*verifThread{vgoid(): t}
+		vs.cur = 0
+	}
+}
+
+func verifGo(f func()) {
+	vs.mu.Lock()
+	t := &verifThread{id: len(vs.threads), wake: make(chan struct{}, 1)}
+	vs.threads = append(vs.threads, t)
+	vs.mu.Unlock()
+	go func() {
+		vs.mu.Lock()
+		vs.byG[vgoid()] = t
+		vs.mu.Unlock()
+		<-t.wake
+		f()
+		vs.mu.Lock()
+		t.state = 2
+		t.running = false
+		vpickLocked(t.id)
+		vs.mu.Unlock()
+	}()
+}
+
+// vresumable: ready, or blocked on a lock that could now be taken
+func vresumable(t *verifThread) bool {
+	switch t.state {
+	case 0:
+		return true
+	case 1:
+		return t.lock.available(t.mode, t)
+	case 3:
+		for _, o := range vs.threads[1:] {
+			if o.state != 2 {
+				return false
+			}
+		}
+		return true
+	}
+	return false
+}
+
+// vpickLocked hands the processor to the next runnable thread after index from (round robin); caller holds vs.mu
+func vpickLocked(from int) {
+	n := len(vs.threads)
+	for k := 1; k <= n; k++ {
+		o := vs.threads[(from+k)%n]
+		if o.state == 0 {
+			vs.cur = o.id
+			o.running = true
+			o.wake <- struct{}{}
+			return
+		}
+	}
+	for _, o := range vs.threads {
+		if (o.state == 1 || o.state == 3) && vresumable(o) {
+			o.state = 0
+			vs.cur = o.id
+			o.running = true
+			o.wake <- struct{}{}
+			return
+		}
+	}
+	fmt.Println("VERIF-DEADLOCK scheduler: every goroutine is blocked")
+}
+
+func verifJoin() {
+	t := vself()
+	vs.mu.Lock()
+	t.state = 3
+	t.running = false
+	vpickLocked(t.id)
+	vs.mu.Unlock()
+	<-t.wake
+}
+
+// vpoint: a schedule point of thread t
+func vpoint(t *verifThread) {
+	vs.mu.Lock()
+	if !vs.on {
+		vs.mu.Unlock()
+		return
+	}
+	if t.skip {
+		t.skip = false
+		vs.mu.Unlock()
+		return
+	}
+	if vs.switches >= verifDoc.Params["_maxswitches"] {
+		vs.mu.Unlock()
+		return
+	}
+	other := -1
+	n := len(vs.threads)
+	for k := 1; k < n; k++ {
+		o := vs.threads[(t.id+k)%n]
+		if vresumable(o) && o.state != 3 || (o.state == 3 && vresumable(o)) {
+			other = o.id
+			break
+		}
+	}
+	if other < 0 {
+		vs.mu.Unlock()
+		return
+	}
+	vs.mu.Unlock()
+	sw := verifNext("sched") == "true"
+	fmt.Printf("VERIF-SCHED T%d other=T%d switch=%v\n", t.id, other, sw)
+	if !sw {
+		return
+	}
+	vs.mu.Lock()
+	vs.switches++
+	t.skip = true
+	t.running = false
+	o := vs.threads[other]
+	o.state = 0
+	vs.cur = o.id
+	o.running = true
+	o.wake <- struct{}{}
+	vs.mu.Unlock()
+	<-t.wake
+	t.skip = false
+}
+
+func vblock(t *verifThread, m *verifRWMutex, mode byte) {
+	vs.mu.Lock()
+	t.state, t.lock, t.mode = 1, m, mode
+	t.running = false
+	vpickLocked(t.id)
+	vs.mu.Unlock()
+	<-t.wake
+}
+
+type verifRWMutex struct {
+	real sync.RWMutex
+	w    bool
+	r    int
+}
+
+type verifMutex struct{ verifRWMutex }
+
+func (m *verifRWMutex) available(mode byte, self *verifThread) bool {
+	if mode == 'W' {
+		return !m.w && m.r == 0
+	}
+	if m.w {
+		return false
+	}
+	return true
+}
+
+func (m *verifRWMutex) writerWaiting(self *verifThread) bool {
+	for _, o := range vs.threads {
+		if o != self && o.state == 1 && o.lock == m && o.mode == 'W' {
+			return true
+		}
+	}
+	return false
+}
+
+func (m *verifRWMutex) acquire(mode byte) {
+	t := vself()
+	if t == nil {
+		if mode == 'W' {
+			m.real.Lock()
+		} else {
+			m.real.RLock()
+		}
+		return
+	}
+	for {
+		vpoint(t)
+		vs.mu.Lock()
+		ok := m.available(mode, t) && !(mode == 'R' && m.writerWaiting(t))
+		if ok {
+			if mode == 'W' {
+				m.w = true
+			} else {
+				m.r++
+			}
+			vs.mu.Unlock()
+			return
+		}
+		vs.mu.Unlock()
+		vblock(t, m, mode)
+	}
+}
+
+func (m *verifRWMutex) release(mode byte) {
+	t := vself()
+	if t == nil {
+		if mode == 'W' {
+			m.real.Unlock()
+		} else {
+			m.real.RUnlock()
+		}
+		return
+	}
+	vpoint(t)
+	vs.mu.Lock()
+	if mode == 'W' {
+		m.w = false
+	} else {
+		m.r--
+	}
+	vs.mu.Unlock()
+}
+
+func (m *verifRWMutex) Lock()    { m.acquire('W') }
+func (m *verifRWMutex) Unlock()  { m.release('W') }
+func (m *verifRWMutex) RLock()   { m.acquire('R') }
+func (m *verifRWMutex) RUnlock() { m.release('R') }
